@@ -196,6 +196,49 @@ def gen_children_ext(rng, base, types, gen_children, avail):
     return own
 
 
+OVERRIDE_KT = [("identifier", "basic-key"), ("identifier", "basic-key"), ("identifier", "ipaddr-or-hostname"),
+               ("basic-key", "identifier"), ("ipaddr-or-hostname", "identifier")]
+
+
+def add_keytype_override(rng, sd):
+    """extends (in place) a schema description by a section type that OVERRIDES the key type it inherits, with inherited fixed
+    key names that are not fixed points of the new key type: a base type under a case-sensitive key type declaring mixed-case
+    keys ('MaxSize', 'Beta_x') and a derived type under a case-insensitive one, or the other way round.  The derived type
+    lists the inherited keys as the BASE's key type converted them, so under the new key type some of them are reachable
+    in one spelling only, or in none (every spelling rejected, or collected by a wildcard key): whatever the loader does
+    with such a key, under a case-insensitive key type it must do for every letter case of the key line.
+    A multisection slot for the derived type (and sometimes the base type) is added at top level.  Returns the two type names."""
+    i = len(sd.types)
+    bkt, dkt = rng.choice(OVERRIDE_KT)
+    pool = {"identifier": ["MaxSize", "Beta_x", "K9", "alpha", "kappa9", "MaxAge"],
+            "basic-key": ["MaxSize", "Beta-x", "K9", "alpha", "kappa9", "Max.Age"],
+            "ipaddr-or-hostname": ["MaxSize", "Beta-x", "K9x", "alpha", "kappa9", "Max.Age"]}[bkt]
+    bname, dname = "ovb%d" % i, "ovd%d" % i
+    ch = []
+    for j, nm in enumerate(rng.sample(pool, rng.randint(1, 3))):
+        dt = rng.choice(["string", "integer", "boolean", "string"])
+        multi = rng.random() < 0.25
+        dflt = None
+        if rng.random() < 0.5:
+            dflt = [_pick_default(rng, dt, 0.0)] if multi else _pick_default(rng, dt, 0.0)
+        ch.append(F.KeyD(nm, dt, multi, False, dflt, "ov%da%d" % (i, j), None))
+    if rng.random() < 0.4:
+        # a wildcard key: collects the key lines that reach no fixed key (its default keys are re-keyed by the derived type)
+        multi = rng.random() < 0.4
+        dk = [("Alpha1", "x"), ("Beta2", "y")] + ([("Alpha1", "z")] if multi else [])
+        ch.append(F.KeyD("+", "string", multi, False, dk[: rng.randint(1, len(dk))] if rng.random() < 0.5 else None, "ov%dmap" % i, None))
+    rng.shuffle(ch)
+    sd.types.append(F.TypeD(bname, ch, bkt, None))
+    own = []
+    if rng.random() < 0.7:
+        own.append(F.KeyD("own%dk" % i, rng.choice(["string", "integer"]), False, False, None, "own%dk" % i, None))
+    sd.types.append(F.TypeD(dname, own, dkt, None, extends=bname))
+    sd.children.append(F.SectD(dname, "*", True, False, "ovsecs%d" % i, None))
+    if rng.random() < 0.3:
+        sd.children.append(F.SectD(bname, "+", True, False, "ovbase%d" % i, None))
+    return bname, dname
+
+
 def _pick_default(rng, dt, pbad):
     """schema defaults: never empty or blank (an empty <default/> element has no position in the real loader and
     fails with TypeError when it does not convert - a schema authoring error outside every property's quantifier)"""
@@ -311,6 +354,37 @@ def gen_items(rng, elab, tyname, depth, pfill=0.75, pempty=0.0):
     if rng.random() < 0.5:
         rng.shuffle(items)
     return items
+
+
+def add_namesake_keys(rng, elab, items, p=0.5):
+    """gives (in place) key lines whose KEY is the name of a section of the same container: in every container that has an
+    arbitrary key (<key name='+'> / <multikey name='+'>) and named sections, with probability p, one key spelled like one of
+    the section names (a name the key type converts, no fixed key or fixed section name, not given as a key already), at a
+    random position before, between or after the sections.  Keys and section names are different things (the mapping of
+    the arbitrary key gets the entry, the section keeps its name); returns the number of key lines added."""
+    import re
+    n = 0
+    for cont, tyname in _containers(items, None, []):
+        children, kt = _children_of(elab, tyname)
+        if children is None:
+            continue
+        wild = [info for _, info in children if info[0] == "key" and info[1] == "+"]
+        if not wild or any(it[0] in ("raw", "import", "include") for it in cont):
+            continue
+        fixed = {c[1][1] for c in children if c[1][0] == "key"} | {c[0] for c in children if c[0]}
+        given = {_norm(kt, it[1]) for it in cont if it[0] == "kv"}
+        names = []
+        for it in cont:
+            if it[0] == "sect" and it[2] and re.match(r"[a-zA-Z][a-zA-Z0-9]*\Z", it[2]):
+                k = it[2].lower()       # the parser lower-cases section names
+                if k not in fixed and k not in given and k not in names:
+                    names.append(k)
+        if not names or rng.random() >= p:
+            continue
+        k = rng.choice(names)
+        cont.insert(rng.randint(0, len(cont)), kv(_maybe_case(rng, kt, k), _value(rng, wild[-1][5], 0.0)))
+        n += 1
+    return n
 
 
 EMPTY_NAME = "zcvnil"
